@@ -22,7 +22,8 @@ def gen_thr(rng, tier):
             alph = sorted(rng.sample([-3.0, -1.0, 0.0, 0.5, 2.0, 7.0, 11.5], rng.randint(1, 4)))
             logL = sorted(rng.choice(alph) for _ in range(size))
         else:
-            logL = sorted(rng.uniform(-50, 10) for _ in range(size))
+            off = rng.choice([0.0, 0.0, -2000.0, 3000.0, -1.0e5])    # ordinary log-likelihood magnitudes
+            logL = sorted(off + rng.uniform(-50, 10) for _ in range(size))
         wk = rng.choice(["equal", "dominant", "random", "neginf_some", "neginf_all", "huge"])
         if wk == "equal":
             logW = [0.0] * size
@@ -79,7 +80,9 @@ def gen_wq(rng, tier):
             lw = [(-INF if rng.random() < 0.3 else rng.uniform(-3, 0)) for _ in range(n)]
             if all(v == -INF for v in lw):
                 lw[0] = 0.0
-        out.append({"values": vals, "logw": lw, "qs": [0.0, 0.05, 0.2, 0.5, 0.5, 0.8, 0.95, 1.0], "kind": kind})
+        out.append({"values": vals, "logw": lw, "qs": [0.0, 0.05, 0.2, 0.5, 0.5, 0.8, 0.95, 1.0], "kind": kind,
+                    # the weights are normalised inside the function: a common offset must not matter (C17_quantile_shift)
+                    "shift": rng.choice([0.0, 50.0, -600.0, -745.0, -1000.0, 800.0, -2000.0, 5000.0])})
     return out
 
 
@@ -239,7 +242,17 @@ def run(chk):
     for c, r in zip(job["wq"], res["wq"]):
         if "error" in r:
             chk.count("weighted_quantile_raised:" + r["error"])
+            # at least one weight is finite in every generated case: there is a quantile to return
+            chk.fail("C17:quantile-raised", f"weighted_quantile raised {r['error']} for weights with a finite entry "
+                     f"(common offset {c.get('shift', 0.0)})", {"case": c, "observed": r})
             continue
+        scale = max(1.0, max(abs(v) for v in c["values"]))
+        if "q0" in r and any(not abs(a - b) <= 1e-7 * scale for a, b in zip(r["q"], r["q0"])):
+            chk.fail("C17:quantile-shift", f"weighted quantile changes when {c['shift']} is added to every log-weight: {r['q0']} -> {r['q']}",
+                     {"case": c, "observed": r})
+        if "qu" in r and any(not abs(a - b) <= 1e-7 * scale for a, b in zip(r["q"], r["qu"])):
+            chk.fail("C17:quantile-equal-weights", f"equal log-weights {c['logw'][0] + c.get('shift', 0.0)} give {r['q']}, the unweighted quantile is {r['qu']}",
+                     {"case": c, "observed": r})
         chk.oracle_validations += 1
         pos = [v for v, w in zip(c["values"], c["logw"]) if w > -INF]
         lo, hi = min(pos), max(pos)
